@@ -1,5 +1,190 @@
-import Toq.Driver.Util
-/-! Driver handlers for C08 (stub; filled in by the owner of this property). -/
+import Toq.Driver.QJson
+import Toq.Model.Xor
+/-! Driver front end for C08 (XOR games, Tsirelson certificates, Bell expressions).
+
+Rationals are `[num, den]` or an integer; rational vectors / matrices are flat row-major lists of rationals;
+exact matrices for certificates are either dyadic `{"e":k,"re":[…],"im":[…]}` or with a common denominator
+`{"den":d,"re":[…],"im":[…]}`.
+
+* `c08_dmat        {"m","n","prob":[rat…],"pred":[nat…]}`            → `{"D":[rat…]}`
+* `c08_nlg_pred    {"m","n","pred":[nat…]}`                          → `{"pred":[0/1 …]}` in `[a,b,x,y]` C order
+* `c08_classical   {"m","n","prob","pred"}`                          → `{"value","bias","total"}`
+* `c08_dual_mat    {"m","n","D","a","b"}`                            → `{"Z":[rat…]}` (row-major `(m+n)²`)
+* `c08_value       {"s":rat,"reps":r}`                               → `{"value":rat}`
+* `c08_primal      {"m","n","D","G":mat,"L":mat,"k"}`               → `{"ok":rat}` / `{"reject":why}`
+* `c08_dual        {"m","n","D","a","b","L":mat,"k"}`               → `{"ok":rat}` / `{"reject":why}`
+* `c08_bell_dual   {"m","n","J","a","b","t","u","v","L","k"}`       → `{"ok":rat}` / `{"reject":why}`
+* `c08_bell_strategy {"m","n","J","a","b","N","rho","Lrho","k","A":[mat…],"B":[mat…]}` → `{"ok":rat}` / reject
+* `c08_bell_det    {"m","n","J","a","b"}`                            → `{"value":rat}`
+* `c08_bell_affine {"m","n","J","a","b","aval":[r,r],"bval":[r,r]}` → `{"J","a","b","const"}`
+
+The verdict of every certificate op is the one of the verified checker of `Toq.Model.Xor`; the diagnostics
+only word a rejection by re-evaluating the same named conditions. -/
+open Lean Toq.Xor EMat
+
 namespace Toq.Driver.C08
-def handlers : List (String × Handler) := []
+
+def ratFn (l : List Rat) : Nat → Rat := fun i => l.getD i 0
+def ratFn2 (l : List Rat) (cols : Nat) : Nat → Nat → Rat := fun i j => l.getD (i * cols + j) 0
+def natFn2 (l : List Nat) (cols : Nat) : Nat → Nat → Nat := fun i j => l.getD (i * cols + j) 0
+
+def ratListJson (l : List Rat) : Json := Json.arr (l.map ratJson).toArray
+
+def flat2 (m n : Nat) (f : Nat → Nat → Rat) : List Rat :=
+  (List.range m).flatMap fun x => (List.range n).map fun y => f x y
+
+/-- exact matrix, dyadic (`"e"`) or with a common denominator (`"den"`) -/
+def parseQMat (n m : Nat) (j : Json) : Except String (EMat n m) := do
+  match j.getObjVal? "den" with
+  | .ok dj =>
+    let den ← dj.getNat?
+    if den == 0 then throw "matrix: zero denominator"
+    let re ← getIntArray j "re"
+    let im := (getIntArray j "im").toOption.getD (Array.replicate (n * m) 0)
+    if re.size != n * m || im.size != n * m then throw s!"matrix size mismatch: expected {n}x{m}, got {re.size}"
+    return EMat.ofFn fun i k => ⟨(re[i.val * m + k.val]! : Rat) / (den : Rat), (im[i.val * m + k.val]! : Rat) / (den : Rat)⟩
+  | .error _ => parseEMat n m j
+
+def getQMat (j : Json) (key : String) (n m : Nat) : Except String (EMat n m) := do
+  parseQMat n m (← j.getObjVal? key)
+
+def getQMatList (j : Json) (key : String) (n m : Nat) : Except String (List (EMat n m)) := do
+  let a ← (← j.getObjVal? key).getArr?
+  a.toList.mapM (parseQMat n m)
+
+def firstFail (k : Nat) (p : Fin k → Bool) : Option Nat :=
+  ((List.finRange k).find? fun i => !p i).map (·.val)
+
+/-- why `psdCert A L` fails (`none` when it holds) -/
+def psdWhy {n k : Nat} (A : EMat n n) (L : EMat n k) : Option String :=
+  if !A.isHermitian then some "not_hermitian"
+  else
+    let R := A - L.mul L.ct
+    if !R.isHermitian then some "residual_not_hermitian"
+    else
+      match firstFail n fun i =>
+          decide (sumFinQ n (fun j => if j = i then 0 else (R.get i j).abs1) ≤ (R.get i i).re) with
+      | some i => some s!"residual_not_diag_dominant_row_{i}"
+      | none => if psdCert A L then none else some "psdCert_failed"
+
+def answer (r : Option Rat) (why : Unit → String) : Json :=
+  match r with
+  | some v => Json.mkObj [("ok", ratJson v)]
+  | none => reject (why ())
+
+def lenCheck (named : List (String × Nat × Nat)) : Except String Unit :=
+  match named.find? fun x => x.2.1 != x.2.2 with
+  | some x => throw s!"length of {x.1}: {x.2.1}, expected {x.2.2}"
+  | none => pure ()
+
+def hDmat : Handler := fun j => do
+  let m ← getNat j "m"; let n ← getNat j "n"
+  let prob ← getRatList j "prob"; let pred ← getNatList j "pred"
+  lenCheck [("prob", prob.length, m * n), ("pred", pred.length, m * n)]
+  return Json.mkObj [("D", ratListJson (flat2 m n (dMat (ratFn2 prob n) (natFn2 pred n))))]
+
+def hNlgPred : Handler := fun j => do
+  let m ← getNat j "m"; let n ← getNat j "n"
+  let pred ← getNatList j "pred"
+  lenCheck [("pred", pred.length, m * n)]
+  let f := nlgPred (natFn2 pred n)
+  let out : List Rat := (List.range 2).flatMap fun a => (List.range 2).flatMap fun b =>
+    (List.range m).flatMap fun x => (List.range n).map fun y => f a b x y
+  return Json.mkObj [("pred", ratListJson out)]
+
+def hClassical : Handler := fun j => do
+  let m ← getNat j "m"; let n ← getNat j "n"
+  let prob ← getRatList j "prob"; let pred ← getNatList j "pred"
+  lenCheck [("prob", prob.length, m * n), ("pred", pred.length, m * n)]
+  let p := ratFn2 prob n; let f := natFn2 pred n
+  return Json.mkObj [("value", ratJson (xorClassicalValue m n p f)),
+    ("bias", ratJson (xorClassicalBias m n (dMat p f))), ("total", ratJson (totalProb m n p))]
+
+def hDualMat : Handler := fun j => do
+  let m ← getNat j "m"; let n ← getNat j "n"
+  let D ← getRatList j "D"; let a ← getRatList j "a"; let b ← getRatList j "b"
+  lenCheck [("D", D.length, m * n), ("a", a.length, m), ("b", b.length, n)]
+  let Z := xorDualMat m n (ratFn2 D n) (ratFn a) (ratFn b)
+  let out : List Rat := (List.finRange (m + n)).flatMap fun i => (List.finRange (m + n)).map fun k => (Z.get i k).re
+  return Json.mkObj [("Z", ratListJson out)]
+
+def hValue : Handler := fun j => do
+  let s ← getRat j "s"; let r ← getNat j "reps"
+  return Json.mkObj [("value", ratJson (xorValue s r))]
+
+def hPrimal : Handler := fun j => do
+  let m ← getNat j "m"; let n ← getNat j "n"; let k ← getNat j "k"
+  let D ← getRatList j "D"
+  lenCheck [("D", D.length, m * n)]
+  let G ← getQMat j "G" (m + n) (m + n)
+  let L ← getQMat j "L" (m + n) k
+  return answer (checkXorPrimal m n (ratFn2 D n) G L) fun _ =>
+    match psdWhy G L with
+    | some s => s!"G_{s}"
+    | none => if !diagOne G then "G_diagonal_not_one" else "rejected"
+
+def hDual : Handler := fun j => do
+  let m ← getNat j "m"; let n ← getNat j "n"; let k ← getNat j "k"
+  let D ← getRatList j "D"; let a ← getRatList j "a"; let b ← getRatList j "b"
+  lenCheck [("D", D.length, m * n), ("a", a.length, m), ("b", b.length, n)]
+  let L ← getQMat j "L" (m + n) k
+  return answer (checkXorDual m n (ratFn2 D n) (ratFn a) (ratFn b) L) fun _ =>
+    match psdWhy (xorDualMat m n (ratFn2 D n) (ratFn a) (ratFn b)) L with
+    | some s => s!"dual_matrix_{s}"
+    | none => "rejected"
+
+def hBellDual : Handler := fun j => do
+  let m ← getNat j "m"; let n ← getNat j "n"; let k ← getNat j "k"
+  let J ← getRatList j "J"; let a ← getRatList j "a"; let b ← getRatList j "b"
+  let t ← getRat j "t"; let u ← getRatList j "u"; let v ← getRatList j "v"
+  lenCheck [("J", J.length, m * n), ("a", a.length, m), ("b", b.length, n), ("u", u.length, m + 1), ("v", v.length, n + 1)]
+  let L ← getQMat j "L" (m + 1 + (n + 1)) k
+  return answer (checkBellDual m n (ratFn2 J n) (ratFn a) (ratFn b) t (ratFn u) (ratFn v) L) fun _ =>
+    match psdWhy (xorDualMat (m + 1) (n + 1) (bellExt (ratFn2 J n) (ratFn a) (ratFn b) t) (ratFn u) (ratFn v)) L with
+    | some s => s!"dual_matrix_{s}"
+    | none => "rejected"
+
+def hBellStrategy : Handler := fun j => do
+  let m ← getNat j "m"; let n ← getNat j "n"; let k ← getNat j "k"; let N ← getNat j "N"
+  let J ← getRatList j "J"; let a ← getRatList j "a"; let b ← getRatList j "b"
+  let rho ← getQMat j "rho" N N
+  let Lrho ← getQMat j "Lrho" N k
+  let A ← getQMatList j "A" N N
+  let B ← getQMatList j "B" N N
+  lenCheck [("J", J.length, m * n), ("a", a.length, m), ("b", b.length, n), ("A", A.length, m), ("B", B.length, n)]
+  let Af : Fin m → EMat N N := fun x => A.getD x.val zero
+  let Bf : Fin n → EMat N N := fun y => B.getD y.val zero
+  return answer (checkBellStrategy m n (ratFn2 J n) (ratFn a) (ratFn b) rho Lrho Af Bf) fun _ =>
+    match psdWhy rho Lrho with
+    | some s => s!"rho_{s}"
+    | none =>
+      if !(rho.trace == 1) then "rho_trace_not_one"
+      else
+        match firstFail m fun x => isInvolution (Af x) with
+        | some x => s!"A[{x}]_not_a_hermitian_involution"
+        | none =>
+          match firstFail n fun y => isInvolution (Bf y) with
+          | some y => s!"B[{y}]_not_a_hermitian_involution"
+          | none => "A_and_B_do_not_commute"
+
+def hBellDet : Handler := fun j => do
+  let m ← getNat j "m"; let n ← getNat j "n"
+  let J ← getRatList j "J"; let a ← getRatList j "a"; let b ← getRatList j "b"
+  lenCheck [("J", J.length, m * n), ("a", a.length, m), ("b", b.length, n)]
+  return Json.mkObj [("value", ratJson (bellDetMax m n (ratFn2 J n) (ratFn a) (ratFn b)))]
+
+def hBellAffine : Handler := fun j => do
+  let m ← getNat j "m"; let n ← getNat j "n"
+  let J ← getRatList j "J"; let a ← getRatList j "a"; let b ← getRatList j "b"
+  let av ← getRatList j "aval"; let bv ← getRatList j "bval"
+  lenCheck [("J", J.length, m * n), ("a", a.length, m), ("b", b.length, n), ("aval", av.length, 2), ("bval", bv.length, 2)]
+  let r := bellAffine m n (ratFn2 J n) (ratFn a) (ratFn b) (ratFn av 0) (ratFn av 1) (ratFn bv 0) (ratFn bv 1)
+  return Json.mkObj [("J", ratListJson (flat2 m n r.1)), ("a", ratListJson ((List.range m).map r.2.1)),
+    ("b", ratListJson ((List.range n).map r.2.2.1)), ("const", ratJson r.2.2.2)]
+
+def handlers : List (String × Handler) :=
+  [("c08_dmat", hDmat), ("c08_nlg_pred", hNlgPred), ("c08_classical", hClassical), ("c08_dual_mat", hDualMat),
+   ("c08_value", hValue), ("c08_primal", hPrimal), ("c08_dual", hDual), ("c08_bell_dual", hBellDual),
+   ("c08_bell_strategy", hBellStrategy), ("c08_bell_det", hBellDet), ("c08_bell_affine", hBellAffine)]
+
 end Toq.Driver.C08
